@@ -4,3 +4,4 @@ import BLDFM.Grid
 import BLDFM.Solver
 import BLDFM.Geo
 import BLDFM.Pbl
+import BLDFM.Met
